@@ -101,6 +101,11 @@ CHECKS = {
         technique="TLA+ model of the decode pipeline (Decode.tla: loader, bounded channels, N workers, writer) model-checked by TLC for all interleavings (completeness, no duplication, adjacency, termination under weak fairness); the real CmdDecode.Main() is run on generated RDB files with parallel 1..8 and its parsed output - each line attributed to (record, element) and content-compared through its base64 fields - is validated by TLC against the same contract (DecodeTrace.tla)",
         text="TLC explores every interleaving of the abstract pipeline for up to 5 records and 4 workers; the real command is bound by trace validation of its output for generated files covering every classic type and encoding, binary and numeric key names, expiries, several databases, scripts, infinite scores, hashes above the split limit, parallel 1..8.",
         note="Real goroutine schedules are sampled (free-running), not enumerated: decode.go has no gate hooks; script lines are compared as text."),
+    "C16": dict(
+        level="model_checking", design="DESIGN.md 4/C16",
+        technique="TLA+ model of the rump executor (Rump.tla: fetcher with SCAN / DUMP / PTTL rounds, bounded channels, writer with per-connection SELECT tracking, batch flush and big-key route, receiver; keys vanishing at any moment) model-checked by TLC for all interleavings (Copied, NoGhost, termination under weak fairness); scenarios from the same space are run through the real CmdRump.Main() against two model Redis servers over TCP and the final target keyspace and the way the run ended are validated by TLC (RumpTrace.tla)",
+        text="TLC explores every interleaving and vanish history of the abstract pipeline for small keyspaces (empty pages, batch 1-2, big keys in non-zero databases, fixed target database); the real command is bound by trace validation over generated keyspaces, paginations with arbitrary cursors and empty pages, keys vanishing before DUMP / PTTL, thresholds, key_exists none / rewrite with pre-existing keys, target.db, db / key filters and key-file scans.",
+        note="Real goroutine schedules are free-running (no gate hooks in rump.go); the model clock is fixed so TTLs compare exactly; duplicate keys in a scan are not generated."),
 }
 
 NOT_YET = "check not built yet in this session (work in progress; see DESIGN.md section 7 for the order)"
